@@ -22,19 +22,17 @@ namespace TRV.Props.TieEngine
 open TRV TRV.Engine TRV.Logic TRV.Generated.LogicCommon
 
 /-- `TracerouteParams.validate` returns nil exactly when the model's `validParams` holds -/
-theorem tie_validate (min max : Nat) :
+theorem tie_validate (min max : Nat) (_h1 : min < 256) (_h2 : max < 256) :
     (validate.run { «p.MinTTL» := min, «p.MaxTTL» := max }).okAt "0" = validParams min max := by
   unfold validate.run validParams
-  by_cases h1 : min > max <;> by_cases h2 : min < 1 <;>
-    simp [h1, h2, R.okAt, R.get] <;> omega
+  (repeat' split) <;> simp_all [R.okAt, R.get] <;> omega
 
 /-- `validateProbe` on a non-nil probe returns nil exactly when the model's `validProbe` holds -/
-theorem tie_validateProbe (min max : Nat) (p : Probe) :
+theorem tie_validateProbe (min max : Nat) (p : Probe) (_h1 : min < 256) (_h2 : max < 256) (_h3 : p.ttl < 256) :
     (validateProbe.run { «probe == nil» := false, «probe.TTL» := p.ttl,
                          «p.MinTTL» := min, «p.MaxTTL» := max }).okAt "0" = validProbe min max p := by
   unfold validateProbe.run validProbe
-  by_cases h1 : p.ttl < min <;> by_cases h2 : p.ttl > max <;>
-    simp [h1, h2, R.okAt, R.get] <;> omega
+  (repeat' split) <;> simp_all [R.okAt, R.get] <;> omega
 
 /-- a nil probe is an error whatever the other atoms are (the model's `ROut.nilProbe` outcome) -/
 theorem tie_validateProbe_nil (ttl min max : Nat) :
@@ -44,15 +42,10 @@ theorem tie_validateProbe_nil (ttl min max : Nat) :
 
 /-- `ProbeCount` is the model's `Cfg.count`, computed in `int` after widening both TTLs (no uint8
     wrap-around) -/
-theorem tie_probeCount (c : Timed.Cfg) :
+theorem tie_probeCount (c : Timed.Cfg) (_h1 : c.min < 256) (_h2 : c.max < 256) :
     (ProbeCount.run { «p.MinTTL» := c.min, «p.MaxTTL» := c.max }).rets = [("0", V.int (c.count : Int))] := by
   unfold ProbeCount.run Timed.Cfg.count
-  by_cases h : c.min > c.max
-  · have : ¬ c.min ≤ c.max := by omega
-    simp [h, this]
-  · have h' : c.min ≤ c.max := by omega
-    simp [h, h']
-    omega
+  (repeat' split) <;> simp_all <;> omega
 
 /-- `MaxTimeout` = `TracerouteTimeout + SendDelay * ProbeCount()`: the overall deadline used by the
     timed model of the parallel engine (`Timed.parT`: `start + c.timeout + c.count * c.delay`) -/
